@@ -34,7 +34,7 @@ def run(chk):
                               "by the indexes that address them, the result must be prod_k V_k(point[k], x[k]) (wavelet integrals: prod_k W_k)")
     nt = 0
     for name, kind in (("TasGrid::GridLocalPolynomial::evalBasisSupported", "V"), ("TasGrid::GridLocalPolynomial::evalBasisRaw", "V"), ("TasGrid::GridWavelet::evalBasis", "V"),
-                       ("TasGrid::GridWavelet::evalIntegral", "W"), ("TasGrid::GridSequence::evaluate", "V")):
+                       ("TasGrid::GridWavelet::evalIntegral", "W"), ("TasGrid::GridSequence::evaluate", "V"), ("TasGrid::GridGlobal::getInterpolationWeights", "V")):
         fs = db.fns(name, required=False)
         got = sum(product.value_rule(chk, db, "C03-D5.tensor", f, kind) for f in fs)
         if not got:
